@@ -144,7 +144,7 @@ func c16r2(c *an.Ctx) {
 	an.Instrs(rc, func(in ssa.Instruction) {
 		if lk, ok := in.(*ssa.Lookup); ok && isLoadOfField(lk.X, routes) {
 			lookup = lk
-			if cv, isCv := lk.Index.(*ssa.Convert); isCv && buf != nil && (cv.X == ssa.Value(buf) || an.ResolveAt(cv.X, lk.Block()) == ssa.Value(buf)) {
+			if cv, isCv := lk.Index.(*ssa.Convert); isCv && buf != nil && (cv.X == ssa.Value(buf) || an.ResolveAt(cv.X, lk.Block()) == ssa.Value(buf) || sameButNil(cv.X, buf)) {
 				okKey = true
 			}
 		}
@@ -161,7 +161,7 @@ func c16r2(c *an.Ctx) {
 			}
 		}
 		c.Check(miss, "routeConn | prefix is replayed only on the default route", c.At(cs.Instr), "", "the consumed prefix is replayed to a routed listener (or not only on a miss)")
-		c.Check(buf != nil && (cs.Common().Args[0] == ssa.Value(buf) || an.ResolveAt(cs.Common().Args[0], cs.Instr.Block()) == ssa.Value(buf)), "routeConn | the replayed prefix is the bytes that were read", c.At(cs.Instr), "", "the default route's connection does not start with the bytes consumed from it")
+		c.Check(buf != nil && (cs.Common().Args[0] == ssa.Value(buf) || an.ResolveAt(cs.Common().Args[0], cs.Instr.Block()) == ssa.Value(buf) || sameButNil(cs.Common().Args[0], buf)), "routeConn | the replayed prefix is the bytes that were read", c.At(cs.Instr), "", "the default route's connection does not start with the bytes consumed from it")
 		// the miss selects the default listener: m.def is read on the miss side, at or before the wrapping
 		okDef := false
 		an.Instrs(rc, func(in ssa.Instruction) {
@@ -825,4 +825,29 @@ func prefixReaderByHand(c *an.Ctx, ctor, read *ssa.Function) bool {
 		return false
 	}
 	return nReplay > 0 && nDelegate > 0
+}
+
+// sameButNil: v is want, possibly merged with nil on the ways out of a helper that failed (`return nil, err`).
+func sameButNil(v ssa.Value, want ssa.Value) bool {
+	for depth := 0; depth < 4; depth++ {
+		v = an.Unwrap(v)
+		if v == want || an.Resolve(v) == want {
+			return true
+		}
+		phi, ok := v.(*ssa.Phi)
+		if !ok {
+			return false
+		}
+		var rest []ssa.Value
+		for _, e := range phi.Edges {
+			if !an.IsNilConst(e) && e != ssa.Value(phi) {
+				rest = append(rest, e)
+			}
+		}
+		if len(rest) != 1 {
+			return false
+		}
+		v = rest[0]
+	}
+	return false
 }
